@@ -526,7 +526,7 @@ macro_rules! const_monty_persist {
         }
     };
 }
-crate::for_each_modulus!(const_monty_persist);
+crate::for_each_modulus_small!(const_monty_persist);
 
 fn exec_persist(p: &Persist, out: &mut RunOut) {
     match p.ty {
@@ -872,7 +872,7 @@ impl TypedScenario for PersistSc {
             9 => Ty::NzUint,
             10 => Ty::OddUint,
             11 => {
-                let cands: Vec<(usize, usize)> = crate::moduli::TABLE.iter().copied().filter(|(_, l)| *l <= 8).collect();
+                let cands: Vec<(usize, usize)> = crate::moduli::SMALL_TABLE.iter().copied().filter(|(_, l)| *l <= 8).collect();
                 let (id, l) = *r.pick(&cands);
                 limbs = l;
                 Ty::ConstMonty(id)
